@@ -309,3 +309,572 @@ Theorem C13_decode_offset_fetch : forall bs, no_panic (dec_offset_fetch_resp bs)
 Proof. apply fgood_no_panic, dec_offset_fetch_resp_good. Qed.
 Theorem C13_decode_offset_commit : forall bs, no_panic (dec_offset_commit_resp bs).
 Proof. apply fgood_no_panic, dec_offset_commit_resp_good. Qed.
+
+(* ---- examples: a concrete metadata response, truncated and corrupted ------------------- *)
+Definition np_b {A} (r : res A) : bool :=
+  match r with Panic _ => false | Err EOutOfFuel => false | _ => true end.
+Lemma np_b_iff {A} (r : res A) : np_b r = true <-> no_panic r.
+Proof. destruct r as [a|e|w]; cbn; [tauto| |split; [discriminate|tauto]]. destruct e; cbn; split; auto; discriminate. Qed.
+
+(* corr 7; one broker (1, "host", 9092); one topic (0, "tp", one partition (0, 0, leader 1, [1], [1])) *)
+Definition ex_md : bytes :=
+  enc_i32 7 ++ enc_i32 1 ++ (enc_i32 1 ++ enc_i16 4 ++ tag "host" ++ enc_i32 9092)
+  ++ enc_i32 1 ++ (enc_i16 0 ++ enc_i16 2 ++ tag "tp"
+                   ++ enc_i32 1 ++ (enc_i16 0 ++ enc_i32 0 ++ enc_i32 1
+                                    ++ enc_i32 1 ++ enc_i32 1 ++ enc_i32 1 ++ enc_i32 1)).
+Definition patch (pos : nat) (v : bytes) (bs : bytes) : bytes :=
+  firstn pos bs ++ v ++ skipn (pos + length v) bs.
+
+Example ex_md_decodes :
+  length ex_md = 62%nat /\
+  dec_metadata_resp ex_md =
+    Ok ({| md_corr := 7;
+           md_brokers := [{| bm_node := 1; bm_host := tag "host"; bm_port := 9092 |}];
+           md_topics := [{| tm_error := 0; tm_topic := tag "tp";
+                            tm_partitions := [{| pm_error := 0; pm_id := 0; pm_leader := 1;
+                                                 pm_replicas := [1]; pm_isr := [1] |}] |}] |}, []).
+Proof. vm_compute. split; reflexivity. Qed.
+
+(* truncated at every byte *)
+Example ex_md_truncated :
+  forallb (fun n => np_b (dec_metadata_resp (firstn n ex_md))) (seq 0 63) = true.
+Proof. vm_compute. reflexivity. Qed.
+(* ... and every proper prefix is an error, not a silent success *)
+Example ex_md_truncated_err :
+  forallb (fun n => negb (is_ok (dec_metadata_resp (firstn n ex_md)))) (seq 0 62) = true.
+Proof. vm_compute. reflexivity. Qed.
+
+(* each of the five count fields (brokers, topics, partitions, replicas, isr) replaced by
+   2^31-1, -1, -2^31, 2 and 0 *)
+Example ex_md_counts :
+  forallb (fun pos =>
+    forallb (fun v => np_b (dec_metadata_resp (patch pos (enc_i32 v) ex_md)))
+            [2147483647; -1; -2147483648; 2; 0])
+    [4; 22; 32; 46; 54]%nat = true.
+Proof. vm_compute. reflexivity. Qed.
+Example ex_md_count_max :
+  dec_metadata_resp (patch 4 (enc_i32 2147483647) ex_md) = Err (EIo IoUnexpectedEof)
+  /\ dec_metadata_resp (patch 32 (enc_i32 2147483647) ex_md) = Err (EIo IoUnexpectedEof)
+  (* a negative count is an empty array; the 4 bytes left over are ignored *)
+  /\ is_ok (dec_metadata_resp (patch 54 (enc_i32 (-1)) ex_md)) = true.
+Proof. vm_compute. repeat split; reflexivity. Qed.
+
+(* every single byte replaced by 00, 7f, 80, ff *)
+Example ex_md_bytes :
+  forallb (fun pos =>
+    forallb (fun b => np_b (dec_metadata_resp (patch pos [b] ex_md))) [x00; x7f; x80; xff])
+    (seq 0 62) = true.
+Proof. vm_compute. reflexivity. Qed.
+
+(* the same for a produce response and the other shapes *)
+Definition ex_produce : bytes :=
+  enc_i32 7 ++ enc_i32 1 ++ (enc_i16 2 ++ tag "tp" ++ enc_i32 1 ++ (enc_i32 0 ++ enc_i16 0 ++ enc_i64 42)).
+Example ex_produce_truncated :
+  is_ok (dec_produce_resp ex_produce) = true /\
+  forallb (fun n => np_b (dec_produce_resp (firstn n ex_produce))
+                    && np_b (dec_offset_resp (firstn n ex_produce))
+                    && np_b (dec_list_offsets_resp (firstn n ex_produce))
+                    && np_b (dec_coordinator_resp (firstn n ex_produce))
+                    && np_b (dec_offset_fetch_resp (firstn n ex_produce))
+                    && np_b (dec_offset_commit_resp (firstn n ex_produce)))
+          (seq 0 (S (length ex_produce))) = true.
+Proof. vm_compute. split; reflexivity. Qed.
+
+(* ====================================================================== *)
+(* fetch responses                                                         *)
+(* ====================================================================== *)
+
+(* outcome of something that is not a (value, rest) decoder *)
+Definition out_ok (E : Prop) (PW : bytes -> Prop) {A} (r : res A) : Prop :=
+  match r with Ok _ => True | Err e => e = EOutOfFuel -> E | Panic w => PW w end.
+
+Lemma out_ok_weaken (E E' : Prop) (PW PW' : bytes -> Prop) {A} (r : res A) :
+  (E -> E') -> (forall w, PW w -> PW' w) -> out_ok E PW r -> out_ok E' PW' r.
+Proof. intros HE HP. destruct r as [a|e|w]; cbn [out_ok]; auto. Qed.
+
+Definition dbg_tag : bytes := tag "debug_assert r.is_empty".
+Definition dbg_panic (dbg : bool) (w : bytes) : Prop := dbg = true /\ w = dbg_tag.
+
+(* ---- the snappy reader never panics and never runs out of fuel ---------------------------- *)
+Lemma xerial_loop_no_panic : forall fuel data out mx w, fst (xerial_loop fuel data out mx) <> Panic w.
+Proof.
+  induction fuel as [|fuel IH]; intros data out mx w; destruct data as [|b data]; cbn [xerial_loop fst];
+    try discriminate.
+  destruct (zread_i32 (b :: data)) as [[cs r]|e|w']; cbn [fst]; try discriminate.
+  destruct (cs <=? 0); [discriminate|].
+  destruct (Z.of_nat (length r) <? cs); [discriminate|].
+  destruct (uncompress_to _ out) as [out'|]; [apply IH|discriminate].
+Qed.
+
+Lemma xerial_read_to_end_out : forall v, out_ok False (fun _ => False) (xerial_read_to_end v).
+Proof.
+  intros v. pose proof (xerial_read_to_end_total v) as H. cbv zeta in H.
+  destruct H as [[o H]|[H|[H|[H|H]]]]; rewrite H; cbn [out_ok]; try discriminate; auto.
+  exfalso. revert H. unfold xerial_read_to_end, xerial_run.
+  destruct (validate_stream_cases v) as [[data ->]|[->| ->]]; cbn [fst]; try discriminate.
+  apply xerial_loop_no_panic.
+Qed.
+
+(* ---- one message ------------------------------------------------------------------------------ *)
+Ltac zr H :=
+  match goal with
+  | |- context [bind (?f ?x) _] =>
+      let Hz := fresh "Hz" in
+      pose proof (H False (fun _ => False) x) as Hz; cbv beta in Hz; revert Hz;
+      destruct (f x) as [[? ?]|?|?]; cbn [lt_ok bind]; intros Hz; [clear Hz|auto|contradiction]
+  end.
+
+Lemma protocol_message_out dbg validate raw :
+  out_ok False (dbg_panic dbg) (protocol_message dbg validate raw).
+Proof.
+  unfold protocol_message.
+  zr zread_i32_good. destruct (validate && _); [cbn; discriminate|].
+  zr zread_i8_good. destruct (negb _); [cbn; discriminate|].
+  zr zread_i8_good. zr zread_bytes_good. zr zread_bytes_good.
+  match goal with |- out_ok _ _ (match ?l with _ => _ end) => destruct l end; [exact I|].
+  destruct dbg; cbn [out_ok]; [split; reflexivity|exact I].
+Qed.
+
+Lemma next_message_good dbg validate : good False (dbg_panic dbg) (next_message dbg validate).
+Proof.
+  intros bs. unfold next_message. apply lt_step; [apply zread_i64_good|].
+  intros off r Hr. cbn beta iota. apply le_step; [apply zread_bytes_good|lia|].
+  intros msg r' Hr'. cbn beta iota.
+  pose proof (protocol_message_out dbg validate msg) as H. revert H.
+  destruct (protocol_message dbg validate msg) as [pm|e|w]; cbn [out_ok bind le_ok]; auto.
+Qed.
+
+(* ---- the entry loop ---------------------------------------------------------------------------- *)
+Section Loop.
+Variables (dbg validate : bool) (req : Z).
+
+(* The loop either ends without ever looking at a compressed message, with a result
+   that is Ok, a proper error or the debug assertion - or it hands over to `inner c v`
+   for a (c, v) that only depends on the bytes.  |bs| + 1 fuel is always enough. *)
+Lemma ms_loop_shape : forall fuel bs acc, (length bs < fuel)%nat ->
+  (exists r, out_ok False (dbg_panic dbg) r /\
+             forall inner, ms_loop inner dbg validate req fuel bs acc = r)
+  \/ (exists c v, (c = COMPRESSION_GZIP \/ c = COMPRESSION_SNAPPY) /\
+                  forall inner, ms_loop inner dbg validate req fuel bs acc = inner c v).
+Proof.
+  induction fuel as [|f IH]; intros bs acc Hf; [lia|].
+  destruct bs as [|b0 bs0]; [left; exists (Ok (rev acc)); split; [exact I|reflexivity]|].
+  set (bs := b0 :: bs0) in *.
+  pose proof (next_message_good dbg validate bs) as Hn.
+  destruct (next_message dbg validate bs) as [[[off [[attr k] v]] r]|e|w] eqn:En; cbn [lt_ok] in Hn.
+  - destruct (Z.land attr 7 =? COMPRESSION_NONE) eqn:Ec.
+    + destruct (IH r (if req <=? off then {| m_offset := off; m_key := k; m_value := v |} :: acc else acc)
+                   ltac:(lia)) as [[res [Hres Hall]]|[c [v' [Hc Hall]]]].
+      * left. exists res. split; [exact Hres|]. intros inner. subst bs. cbn [ms_loop].
+        rewrite En, Ec. apply Hall.
+      * right. exists c, v'. split; [exact Hc|]. intros inner. subst bs. cbn [ms_loop].
+        rewrite En, Ec. apply Hall.
+    + destruct ((Z.land attr 7 =? COMPRESSION_GZIP) || (Z.land attr 7 =? COMPRESSION_SNAPPY)) eqn:Eg.
+      * right. exists (Z.land attr 7), v. split; [lia|]. intros inner. subst bs. cbn [ms_loop].
+        rewrite En, Ec, Eg. reflexivity.
+      * left. exists (Err EUnsupportedCompression). split; [cbn; discriminate|].
+        intros inner. subst bs. cbn [ms_loop]. rewrite En, Ec, Eg. reflexivity.
+  - left. exists (match e with EUnexpectedEOF => Ok (rev acc) | _ => Err e end).
+    split; [destruct e; cbn [out_ok]; auto; discriminate|].
+    intros inner. subst bs. cbn [ms_loop]. rewrite En. destruct e; reflexivity.
+  - left. exists (Panic w). split; [exact Hn|]. intros inner. subst bs. cbn [ms_loop]. rewrite En. reflexivity.
+Qed.
+
+(* in particular: given an `inner` with outcomes in (E, PW), so has the loop (plus the debug assertion) *)
+Lemma ms_loop_out (E : Prop) (PW : bytes -> Prop) inner fuel bs acc :
+  (forall c v, out_ok E PW (inner c v)) -> (length bs < fuel)%nat ->
+  out_ok E (fun w => PW w \/ dbg_panic dbg w) (ms_loop inner dbg validate req fuel bs acc).
+Proof.
+  intros Hi Hf. destruct (ms_loop_shape fuel bs acc Hf) as [[r [Hr Hall]]|[c [v [_ Hall]]]]; rewrite Hall.
+  - revert Hr. apply out_ok_weaken; [tauto|auto].
+  - generalize (Hi c v). apply out_ok_weaken; auto.
+Qed.
+
+(* "bs, read as a message set, leads to the compressed message (codec c, value v)" *)
+Definition wrapper_of (bs : bytes) (c : Z) (v : bytes) : Prop :=
+  (c = COMPRESSION_GZIP \/ c = COMPRESSION_SNAPPY) /\
+  forall inner, ms_loop inner dbg validate req (S (length bs)) bs [] = inner c v.
+End Loop.
+
+(* ---- from_slice ---------------------------------------------------------------------------------- *)
+Definition alloc_tag : bytes := tag "alloc".
+
+Definition fs_inner (cz : codecs) (d : nat) (validate : bool) (req : Z) : Z -> bytes -> res (list message) :=
+  fun c v =>
+    if c =? COMPRESSION_GZIP then
+      match gz_decompress cz v with
+      | Some data => from_slice cz d validate req data
+      | None => Err (EIo IoOther)
+      end
+    else if alloc_limit <=? xerial_max_alloc v then alloc_panic
+    else let* data := xerial_read_to_end v in from_slice cz d validate req data.
+
+Lemma from_slice_S cz d validate req bs :
+  from_slice cz (S d) validate req bs
+  = ms_loop (fs_inner cz d validate req) (debug_build cz) validate req (S (length bs)) bs [].
+Proof. reflexivity. Qed.
+
+(* every outcome of from_slice: Ok, Err, the allocation request, or (debug builds) the assertion *)
+Lemma from_slice_out cz validate req : forall depth bs,
+  out_ok True (fun w => w = alloc_tag \/ dbg_panic (debug_build cz) w) (from_slice cz depth validate req bs).
+Proof.
+  induction depth as [|d IH]; intros bs; [cbn; auto|].
+  rewrite from_slice_S.
+  assert (Hi : forall c v, out_ok True (fun w => w = alloc_tag \/ dbg_panic (debug_build cz) w)
+                                  (fs_inner cz d validate req c v)).
+  { intros c v. unfold fs_inner. destruct (c =? COMPRESSION_GZIP).
+    - destruct (gz_decompress cz v) as [data|]; [apply IH|cbn; auto].
+    - destruct (alloc_limit <=? xerial_max_alloc v); [cbn; left; reflexivity|].
+      pose proof (xerial_read_to_end_out v) as Hx. revert Hx.
+      destruct (xerial_read_to_end v) as [data|e|w]; cbn [out_ok bind]; intros Hx;
+        [apply IH|intros _; exact I|contradiction]. }
+  generalize (ms_loop_out (debug_build cz) validate req True _ _ (S (length bs)) bs [] Hi ltac:(lia)).
+  apply out_ok_weaken; [auto|]. intros w [H|H]; auto.
+Qed.
+
+Definition tri {A} (r : res A) : Prop := no_panic r \/ r = alloc_panic \/ r = Err EOutOfFuel.
+
+Lemma out_ok_tri {A} (r : res A) : out_ok True (fun w => w = alloc_tag) r -> tri r.
+Proof.
+  destruct r as [a|e|w]; cbn [out_ok]; intros H.
+  - left. exact I.
+  - destruct e; try (left; exact I). right. right. reflexivity.
+  - right. left. rewrite H. reflexivity.
+Qed.
+
+Theorem C13_message_set_release : forall cz depth validate req bs,
+  debug_build cz = false -> tri (from_slice cz depth validate req bs).
+Proof.
+  intros cz depth validate req bs Hd. apply out_ok_tri.
+  generalize (from_slice_out cz validate req depth bs). apply out_ok_weaken; [auto|].
+  intros w [H|[H _]]; [exact H|congruence].
+Qed.
+
+(* all builds *)
+Theorem C13_message_set_outcomes : forall cz depth validate req bs,
+  let r := from_slice cz depth validate req bs in
+  tri r \/ (debug_build cz = true /\ r = Panic dbg_tag).
+Proof.
+  intros cz depth validate req bs r. subst r.
+  pose proof (from_slice_out cz validate req depth bs) as H. revert H.
+  destruct (from_slice cz depth validate req bs) as [a|e|w]; cbn [out_ok]; intros H.
+  - left. left. exact I.
+  - left. destruct e; try (left; exact I). right. right. reflexivity.
+  - destruct H as [H|[H1 H2]]; [left; right; left; rewrite H; reflexivity|right; split; [exact H1|rewrite H2; reflexivity]].
+Qed.
+
+(* ---- where the escape hatches come from ---------------------------------------------------------- *)
+(* what a compressed message value turns into before it is parsed as a message set *)
+Definition decompressed (cz : codecs) (c : Z) (v data : bytes) : Prop :=
+  (c = COMPRESSION_GZIP /\ gz_decompress cz v = Some data)
+  \/ (c = COMPRESSION_SNAPPY /\ xerial_max_alloc v < alloc_limit /\ xerial_read_to_end v = Ok data).
+
+(* bs contains n compressed sets nested in one another *)
+Inductive nesting (cz : codecs) (validate : bool) (req : Z) : nat -> bytes -> Prop :=
+| nest_O bs : nesting cz validate req O bs
+| nest_S n bs c v data :
+    wrapper_of (debug_build cz) validate req bs c v -> decompressed cz c v data ->
+    nesting cz validate req n data -> nesting cz validate req (S n) bs.
+
+(* the compressed message (c, v) is met while decoding bs, at some nesting level *)
+Inductive reaches (cz : codecs) (validate : bool) (req : Z) : bytes -> Z -> bytes -> Prop :=
+| reach_here bs c v : wrapper_of (debug_build cz) validate req bs c v -> reaches cz validate req bs c v
+| reach_in bs c v data c' v' :
+    wrapper_of (debug_build cz) validate req bs c v -> decompressed cz c v data ->
+    reaches cz validate req data c' v' -> reaches cz validate req bs c' v'.
+
+(* one level: a result the loop cannot produce by itself comes from a wrapper *)
+Lemma from_slice_S_inv cz d validate req bs (r : res (list message)) :
+  from_slice cz (S d) validate req bs = r ->
+  ~ out_ok False (dbg_panic (debug_build cz)) r ->
+  exists c v, wrapper_of (debug_build cz) validate req bs c v /\ fs_inner cz d validate req c v = r.
+Proof.
+  rewrite from_slice_S. intros Hr Hn.
+  destruct (ms_loop_shape (debug_build cz) validate req (S (length bs)) bs [] ltac:(lia))
+    as [[r0 [Hr0 Hall]]|[c [v [Hc Hall]]]].
+  - rewrite Hall in Hr. subst r0. contradiction.
+  - exists c, v. split; [split; [exact Hc|exact Hall]|]. rewrite <- Hr. symmetry. apply Hall.
+Qed.
+
+Lemma fs_inner_inv cz d validate req c v (r : res (list message)) :
+  (c = COMPRESSION_GZIP \/ c = COMPRESSION_SNAPPY) ->
+  fs_inner cz d validate req c v = r ->
+  ~ out_ok False (fun _ => False) r ->
+  (c = COMPRESSION_SNAPPY /\ alloc_limit <= xerial_max_alloc v /\ r = alloc_panic)
+  \/ (exists data, decompressed cz c v data /\ from_slice cz d validate req data = r).
+Proof.
+  intros Hc Hr Hn. unfold fs_inner in Hr. destruct (c =? COMPRESSION_GZIP) eqn:Eg.
+  - destruct (gz_decompress cz v) as [data|] eqn:Ez.
+    + right. exists data. split; [left; split; [lia|exact Ez]|exact Hr].
+    + subst r. exfalso. apply Hn. cbn. discriminate.
+  - assert (c = COMPRESSION_SNAPPY) by (unfold COMPRESSION_GZIP, COMPRESSION_SNAPPY in *; lia).
+    destruct (alloc_limit <=? xerial_max_alloc v) eqn:Ea.
+    + left. repeat split; [assumption|lia|symmetry; exact Hr].
+    + pose proof (xerial_read_to_end_out v) as Hx. revert Hx Hr.
+      destruct (xerial_read_to_end v) as [data|e|w] eqn:Ex; cbn [out_ok bind]; intros Hx Hr.
+      * right. exists data. split; [right; repeat split; [assumption|lia|exact Ex]|exact Hr].
+      * subst r. exfalso. apply Hn. exact Hx.
+      * contradiction.
+Qed.
+
+(* With `depth` levels of fuel the answer is Err EOutOfFuel only if bs really contains
+   `depth` compressed sets nested in one another: the loop fuel S (length bs) is never the
+   reason, only depth = 0 is. *)
+Theorem C13_message_set_depth : forall cz validate req depth bs,
+  from_slice cz depth validate req bs = Err EOutOfFuel -> nesting cz validate req depth bs.
+Proof.
+  intros cz validate req. induction depth as [|d IH]; intros bs H; [constructor|].
+  destruct (from_slice_S_inv _ _ _ _ _ _ H) as [c [v [Hw Hi]]].
+  { cbn. intros Hx. apply Hx. reflexivity. }
+  destruct (fs_inner_inv _ _ _ _ _ _ _ (proj1 Hw) Hi) as [[_ [_ Hp]]|[data [Hd Hf]]].
+  { cbn. intros Hx. apply Hx. reflexivity. }
+  - discriminate.
+  - econstructor; [exact Hw|exact Hd|apply IH; exact Hf].
+Qed.
+
+(* the loop alone (any fuel above |bs|) never reports EOutOfFuel: it has to come from `inner` *)
+Corollary C13_message_set_loop_fuel : forall inner dbg validate req fuel bs acc,
+  (length bs < fuel)%nat ->
+  ms_loop inner dbg validate req fuel bs acc = Err EOutOfFuel ->
+  exists c v, inner c v = Err EOutOfFuel.
+Proof.
+  intros inner dbg validate req fuel bs acc Hf H.
+  destruct (ms_loop_shape dbg validate req fuel bs acc Hf) as [[r [Hr Hall]]|[c [v [_ Hall]]]].
+  - rewrite Hall in H. subst r. cbn in Hr. exfalso. apply Hr. reflexivity.
+  - exists c, v. rewrite <- Hall. exact H.
+Qed.
+
+(* the allocation request of >= 1 GiB happens only if a snappy-compressed message met
+   during decoding carries a chunk header announcing that much *)
+Theorem C13_message_set_alloc_only_if : forall cz validate req depth bs,
+  from_slice cz depth validate req bs = alloc_panic ->
+  exists v, reaches cz validate req bs COMPRESSION_SNAPPY v /\ alloc_limit <= xerial_max_alloc v.
+Proof.
+  intros cz validate req. induction depth as [|d IH]; intros bs H; [discriminate|].
+  destruct (from_slice_S_inv _ _ _ _ _ _ H) as [c [v [Hw Hi]]].
+  { cbn. intros [_ Hx]. discriminate. }
+  destruct (fs_inner_inv _ _ _ _ _ _ _ (proj1 Hw) Hi) as [[Hc [Ha _]]|[data [Hd Hf]]].
+  { cbn. auto. }
+  - exists v. subst c. split; [constructor; exact Hw|exact Ha].
+  - destruct (IH data Hf) as [v' [Hr Ha]]. exists v'. split; [|exact Ha].
+    eapply reach_in; eauto.
+Qed.
+
+(* and the debug assertion fires in debug builds only (C13_message_set_outcomes);
+   more fuel never changes a result that is not EOutOfFuel *)
+Lemma from_slice_fuel_mono cz validate req : forall d bs r,
+  from_slice cz d validate req bs = r -> r <> Err EOutOfFuel ->
+  from_slice cz (S d) validate req bs = r.
+Proof.
+  induction d as [|d IH]; intros bs r H Hr; [cbn in H; congruence|].
+  rewrite from_slice_S in *.
+  destruct (ms_loop_shape (debug_build cz) validate req (S (length bs)) bs [] ltac:(lia))
+    as [[r0 [Hr0 Hall]]|[c [v [Hc Hall]]]].
+  - rewrite Hall in *. exact H.
+  - rewrite Hall in *. unfold fs_inner in *.
+    destruct (c =? COMPRESSION_GZIP).
+    + destruct (gz_decompress cz v) as [data|]; [apply IH; assumption|exact H].
+    + destruct (alloc_limit <=? xerial_max_alloc v); [exact H|].
+      destruct (xerial_read_to_end v) as [data|e|w]; cbn [bind] in *; [apply IH; assumption|exact H|exact H].
+Qed.
+
+(* ---- lifting to the whole fetch response ------------------------------------------------------------ *)
+(* Whatever goes wrong in fetch_from_vec went wrong in from_slice on one of the message
+   sets of the response: the array counts and the partition/topic framing never panic
+   and never exhaust the `zread_many` fuel. *)
+Definition fs_fuel (cz : codecs) (depth : nat) (validate : bool) : Prop :=
+  exists req ms, from_slice cz depth validate req ms = Err EOutOfFuel.
+Definition fs_panic (cz : codecs) (depth : nat) (validate : bool) (w : bytes) : Prop :=
+  exists req ms, from_slice cz depth validate req ms = Panic w.
+
+Lemma read_partition_good cz depth validate preqs :
+  good (fs_fuel cz depth validate) (fs_panic cz depth validate) (read_partition cz depth validate preqs).
+Proof.
+  intros bs. unfold read_partition. apply lt_step; [apply zread_i32_good|].
+  intros p r Hr. cbv beta iota zeta.
+  apply le_step; [apply zread_i16_good|lia|]. intros e r1 Hr1. cbv beta iota.
+  apply le_step; [apply zread_i64_good|lia|]. intros hw r2 Hr2. cbv beta iota.
+  apply le_step; [apply zread_bytes_good|lia|]. intros ms r3 Hr3. cbv beta iota.
+  match goal with |- context [from_slice cz depth validate ?q ms] => set (req := q) end.
+  destruct (from_slice cz depth validate req ms) as [msgs|er|w] eqn:Ef; cbn [bind le_ok].
+  - lia.
+  - intros ->. exists req, ms. exact Ef.
+  - exists req, ms. exact Ef.
+Qed.
+
+Lemma read_topic_good cz depth validate reqs :
+  good (fs_fuel cz depth validate) (fs_panic cz depth validate) (read_topic cz depth validate reqs).
+Proof.
+  intros bs. unfold read_topic. apply lt_step; [apply zread_str_good|].
+  intros name r Hr. cbv beta iota.
+  apply le_step; [apply zread_array_good, read_partition_good|lia|].
+  intros ps r1 Hr1. cbv beta iota. apply le_ret. lia.
+Qed.
+
+Theorem C13_fetch_response_lift : forall cz depth validate reqs bs,
+  out_ok (fs_fuel cz depth validate) (fs_panic cz depth validate) (fetch_from_vec cz depth validate reqs bs).
+Proof.
+  intros cz depth validate reqs bs. unfold fetch_from_vec.
+  pose proof (zread_i32_good (fs_fuel cz depth validate) (fs_panic cz depth validate) bs) as H1. revert H1.
+  destruct (zread_i32 bs) as [[c r]|e|w]; cbn [lt_ok bind out_ok]; auto. intros _.
+  pose proof (zread_array_good (fs_fuel cz depth validate) (fs_panic cz depth validate) 40 _
+                (read_topic_good cz depth validate reqs) r) as H2. revert H2.
+  destruct (zread_array 40 (read_topic cz depth validate reqs) r) as [[ts r']|e|w]; cbn [lt_ok bind out_ok]; auto.
+Qed.
+
+(* the trichotomy for a whole response, release builds ... *)
+Theorem C13_fetch_response : forall cz depth validate reqs bs,
+  debug_build cz = false -> tri (fetch_from_vec cz depth validate reqs bs).
+Proof.
+  intros cz depth validate reqs bs Hd. apply out_ok_tri.
+  generalize (C13_fetch_response_lift cz depth validate reqs bs). apply out_ok_weaken; [auto|].
+  intros w [req [ms Hw]].
+  pose proof (from_slice_out cz validate req depth ms) as H. rewrite Hw in H. cbn [out_ok] in H.
+  destruct H as [H|[H _]]; [exact H|congruence].
+Qed.
+
+(* ... and all builds *)
+Theorem C13_fetch_response_outcomes : forall cz depth validate reqs bs,
+  let r := fetch_from_vec cz depth validate reqs bs in
+  tri r \/ (debug_build cz = true /\ r = Panic dbg_tag).
+Proof.
+  intros cz depth validate reqs bs r. subst r.
+  pose proof (C13_fetch_response_lift cz depth validate reqs bs) as H. revert H.
+  destruct (fetch_from_vec cz depth validate reqs bs) as [a|e|w]; cbn [out_ok]; intros H.
+  - left. left. exact I.
+  - left. destruct e; try (left; exact I). right. right. reflexivity.
+  - destruct H as [req [ms Hw]].
+    pose proof (from_slice_out cz validate req depth ms) as H. rewrite Hw in H. cbn [out_ok] in H.
+    destruct H as [H|[H1 H2]]; [left; right; left; rewrite H; reflexivity|right; split; [exact H1|rewrite H2; reflexivity]].
+Qed.
+
+(* EOutOfFuel for a whole response: some message set in it nests `depth` compressed sets;
+   the allocation request: some message set in it reaches a snappy chunk header >= 1 GiB *)
+Corollary C13_fetch_response_depth : forall cz depth validate reqs bs,
+  fetch_from_vec cz depth validate reqs bs = Err EOutOfFuel ->
+  exists req ms, nesting cz validate req depth ms.
+Proof.
+  intros cz depth validate reqs bs H.
+  pose proof (C13_fetch_response_lift cz depth validate reqs bs) as L. rewrite H in L. cbn [out_ok] in L.
+  destruct (L eq_refl) as [req [ms Hf]]. exists req, ms. apply C13_message_set_depth. exact Hf.
+Qed.
+Corollary C13_fetch_response_alloc_only_if : forall cz depth validate reqs bs,
+  fetch_from_vec cz depth validate reqs bs = alloc_panic ->
+  exists req ms v, reaches cz validate req ms COMPRESSION_SNAPPY v /\ alloc_limit <= xerial_max_alloc v.
+Proof.
+  intros cz depth validate reqs bs H.
+  pose proof (C13_fetch_response_lift cz depth validate reqs bs) as L. rewrite H in L. cbn [out_ok] in L.
+  destruct L as [req [ms Hf]]. destruct (C13_message_set_alloc_only_if _ _ _ _ _ Hf) as [v Hv].
+  exists req, ms, v. exact Hv.
+Qed.
+
+(* ---- the two refutations ---------------------------------------------------------------------------------- *)
+Definition ex_cz (dbg : bool) : codecs :=
+  {| gz_compress := fun b => b; sn_compress := fun b => b;
+     gz_decompress := fun b => Some b;          (* "gzip" = identity, good enough to build nested sets *)
+     debug_build := dbg |}.
+
+(* one message set entry: offset, size, crc (not validated), magic 0, attr, key = null, value *)
+Definition ex_entry (off attr : Z) (value : bytes) (trailing : bytes) : bytes :=
+  let body := enc_i32 0 ++ enc_i8 0 ++ enc_i8 attr ++ enc_i32 (-1)
+              ++ enc_i32 (ulen value) ++ value ++ trailing in
+  enc_i64 off ++ enc_i32 (ulen body) ++ body.
+
+(* a snappy wrapper whose single 5-byte chunk announces 4 GiB - 1 *)
+Definition ex_alloc_value : bytes := xerial_header ++ enc_i32 5 ++ [xff; xff; xff; xff; x0f].
+Definition ex_alloc_set : bytes := ex_entry 0 COMPRESSION_SNAPPY ex_alloc_value [].
+
+Theorem C13_snappy_alloc_refuted :
+  exists cz bs, (length bs <= 100)%nat /\ from_slice cz 2 false 0 bs = alloc_panic.
+Proof. exists (ex_cz false), ex_alloc_set. vm_compute. split; [repeat constructor|reflexivity]. Qed.
+
+Example ex_alloc_set_facts :
+  length ex_alloc_set = 51%nat
+  /\ xerial_max_alloc ex_alloc_value = 4294967295
+  /\ wrapper_of false false 0 ex_alloc_set COMPRESSION_SNAPPY ex_alloc_value.
+Proof.
+  split; [vm_compute; reflexivity|]. split; [vm_compute; reflexivity|].
+  split; [right; reflexivity|]. intros inner. vm_compute. reflexivity.
+Qed.
+
+(* a message whose declared size leaves one byte after the value *)
+Definition ex_trailing_set : bytes := ex_entry 5 0 (tag "v") [x00].
+
+Theorem C13_debug_assert_refuted :
+  exists cz bs, debug_build cz = true /\ exists w, from_slice cz 1 false 0 bs = Panic w.
+Proof. exists (ex_cz true), ex_trailing_set. split; [reflexivity|]. exists dbg_tag. vm_compute. reflexivity. Qed.
+
+(* the same bytes in a release build *)
+Example ex_trailing_release :
+  from_slice (ex_cz false) 1 false 0 ex_trailing_set = Ok [{| m_offset := 5; m_key := []; m_value := tag "v" |}].
+Proof. vm_compute. reflexivity. Qed.
+
+(* non-vacuity of C13_message_set_depth: a plain set inside two identity-"gzip" wrappers
+   needs depth 3 *)
+Definition ex_plain_set : bytes := ex_entry 7 0 (tag "v") [].
+Definition ex_nested_set : bytes := ex_entry 0 COMPRESSION_GZIP (ex_entry 0 COMPRESSION_GZIP ex_plain_set []) [].
+Example ex_nested :
+  from_slice (ex_cz false) 2 false 0 ex_nested_set = Err EOutOfFuel
+  /\ from_slice (ex_cz false) 3 false 0 ex_nested_set = Ok [{| m_offset := 7; m_key := []; m_value := tag "v" |}]
+  /\ from_slice (ex_cz false) 8 false 0 ex_nested_set = Ok [{| m_offset := 7; m_key := []; m_value := tag "v" |}].
+Proof. vm_compute. repeat split; reflexivity. Qed.
+
+(* whole fetch responses: corr, one topic "tp", one partition 0 (error 0, hw 9) with the given set *)
+Definition ex_fetch (set : bytes) : bytes :=
+  enc_i32 7 ++ enc_i32 1 ++ (enc_i16 2 ++ tag "tp" ++ enc_i32 1
+    ++ (enc_i32 0 ++ enc_i16 0 ++ enc_i64 9 ++ enc_i32 (ulen set) ++ set)).
+
+Example ex_fetch_ok :
+  fetch_from_vec (ex_cz false) 8 false [] (ex_fetch ex_plain_set)
+  = Ok {| fr_corr := 7;
+          fr_topics := [{| ft_topic := tag "tp";
+                           ft_partitions := [{| fp_partition := 0;
+                                                fp_data := inl (9, [{| m_offset := 7; m_key := []; m_value := tag "v" |}]) |}] |}] |}.
+Proof. vm_compute. reflexivity. Qed.
+Example ex_fetch_alloc : fetch_from_vec (ex_cz false) 8 false [] (ex_fetch ex_alloc_set) = alloc_panic.
+Proof. vm_compute. reflexivity. Qed.
+Example ex_fetch_debug : fetch_from_vec (ex_cz true) 8 false [] (ex_fetch ex_trailing_set) = Panic dbg_tag.
+Proof. vm_compute. reflexivity. Qed.
+Example ex_fetch_depth : fetch_from_vec (ex_cz false) 2 false [] (ex_fetch ex_nested_set) = Err EOutOfFuel.
+Proof. vm_compute. reflexivity. Qed.
+
+(* truncated at every byte, and each count / size field (topics, partitions, message set
+   size, message size, key and value length) replaced by extreme values: always Ok or Err *)
+Example ex_fetch_truncated :
+  forallb (fun n => np_b (fetch_from_vec (ex_cz true) 8 true [] (firstn n (ex_fetch ex_plain_set))))
+          (seq 0 (S (length (ex_fetch ex_plain_set)))) = true.
+Proof. vm_compute. reflexivity. Qed.
+Example ex_fetch_counts :
+  length (ex_fetch ex_plain_set) = 61%nat /\
+  forallb (fun pos =>
+    forallb (fun v => np_b (fetch_from_vec (ex_cz false) 8 false [] (patch pos (enc_i32 v) (ex_fetch ex_plain_set))))
+            [2147483647; -1; -2147483648; 2; 0; 1073741824])
+    [4; 12; 30; 42; 52; 56]%nat = true.
+Proof. vm_compute. split; reflexivity. Qed.
+Example ex_fetch_bytes :
+  forallb (fun pos =>
+    forallb (fun b => np_b (fetch_from_vec (ex_cz false) 8 false [] (patch pos [b] (ex_fetch ex_plain_set))))
+            [x00; x01; x02; x7f; x80; xff])
+    (seq 0 61) = true.
+Proof. vm_compute. reflexivity. Qed.
+
+Print Assumptions C13_decode_metadata.
+Print Assumptions C13_decode_offsets.
+Print Assumptions C13_decode_list_offsets.
+Print Assumptions C13_decode_produce.
+Print Assumptions C13_decode_coordinator.
+Print Assumptions C13_decode_offset_fetch.
+Print Assumptions C13_decode_offset_commit.
+Print Assumptions C13_dec_vec_total.
+Print Assumptions C13_message_set_release.
+Print Assumptions C13_message_set_outcomes.
+Print Assumptions C13_message_set_depth.
+Print Assumptions C13_message_set_loop_fuel.
+Print Assumptions C13_message_set_alloc_only_if.
+Print Assumptions C13_snappy_alloc_refuted.
+Print Assumptions C13_debug_assert_refuted.
+Print Assumptions C13_fetch_response_lift.
+Print Assumptions C13_fetch_response.
+Print Assumptions C13_fetch_response_outcomes.
+Print Assumptions C13_fetch_response_depth.
+Print Assumptions C13_fetch_response_alloc_only_if.
